@@ -463,6 +463,14 @@ class Kernel:
             return ("unit",)
         if m in ("iter", "iter_mut"):
             return recv
+        # an unknown method handed `&mut X`: X is transformed in place (its previous value feeds its new one)
+        for raw, a in zip(e[4], args):
+            if is_node(raw) and raw[0] == "ref" and raw[1]:
+                if m.endswith("_to"):
+                    # nalgebra's `x.op_to(.., &mut out)` family stores the result of the operation into out (write-only)
+                    self.emit(("whole", a), ("call", m, recv, [b for b in args if b is not a]))
+                else:
+                    self.emit(("whole", a), ("call", m, recv, args), kind="inplace")
         return ("call", m, recv, args)
 
 
